@@ -142,6 +142,17 @@ EmitLatin == \E n \in LatinNames :
                 \/ Out(KpParse(KeyPathText(<<[n |-> n]>>, Plain), <<[n |-> n]>>))
                 \/ Out(Parse1(PathTextOf(<<Root, Dot(n)>>, Plain, LitFL), <<Root, Dot(n)>>))
                 \/ Out(Parse1(PathTextOf(<<Dot(n), Colon(n)>>, Plain, LitFL), <<Dot(n), Colon(n)>>))
+\* characters beyond the basic plane, from several planes, raw and as escaped surrogate pairs, in quoted
+\* names, quoted key-path elements and string literals
+AstralNames == {<<240, 144, 128, 128>>, <<240, 159, 152, 128>>, <<240, 160, 174, 183>>, <<240, 175, 191, 191>>, <<243, 160, 128, 129>>, <<244, 143, 191, 191>>,
+                <<97, 240, 160, 174, 183, 98>>}
+AstralStyles == {[ws |-> 0, kw |-> 0, quote |-> TRUE, esc |-> 1], [ws |-> 0, kw |-> 0, quote |-> TRUE, esc |-> 0], Plain}
+EmitAstral == \E n \in AstralNames, st \in AstralStyles :
+                \/ Out(KpParse(KeyPathText(<<[q |-> n]>>, st), <<[q |-> n]>>))
+                \/ Out(KpParse(KeyPathText(<<[n |-> n], [i |-> 0]>>, st), <<[n |-> n], [i |-> 0]>>))
+                \/ Out(Parse1(PathTextOf(<<Root, Dot(n)>>, st, LitFL), <<Root, Dot(n)>>))
+                \/ Out(Parse1(PathTextOf(<<Root, ObjF(n), Colon(n)>>, st, LitFL), <<Root, ObjF(n), Colon(n)>>))
+                \/ LET ps == <<Root, FilterSt(EBin("eq", EPaths(<<Cur>>), EVal(PStr(n))))>> IN Out(Parse1(PathTextOf(ps, st, LitFL), ps))
 EmitOdd == (\E t \in OddPathTexts : Out(ParseAny("jp_parse", t))) \/ (\E t \in OddKpTexts : Out(ParseAny("kp_parse", t)))
 \* every byte-prefix of the odd texts and of renderings that carry escapes: input may stop anywhere
 EscStyles == {[ws |-> 0, kw |-> 0, quote |-> FALSE, nesc |-> 1], [ws |-> 0, kw |-> 0, quote |-> FALSE, nesc |-> 2], [ws |-> 0, kw |-> 0, quote |-> TRUE, esc |-> 1]}
@@ -156,7 +167,7 @@ Next ==
   /\ stage = "start"
   /\ CASE Family = "paths" -> EmitPaths
        [] Family = "pathfaults" -> EmitPathFaults
-       [] Family = "soup" -> EmitSoup \/ EmitSoup2 \/ EmitOdd \/ EmitPrefixes
+       [] Family = "soup" -> EmitSoup \/ EmitSoup2 \/ EmitOdd \/ EmitPrefixes \/ EmitAstral
        [] Family = "kp" -> EmitKp \/ EmitLatin
        [] Family = "kpfaults" -> EmitKpFaults
        [] OTHER -> FALSE
